@@ -439,8 +439,8 @@ def stack_never_emptied(ctx, rule='C08.stack-never-emptied'):
             guarded = False
             for (a, sx) in fn.control_deps_transitive(bb):
                 at = fn.term(a)
-                if at['k'] != 'switch':
-                    continue
+                if at['k'] != 'switch' or not fn.dominates(a, bb):
+                    continue       # a test later in an enclosing loop controls the NEXT iteration's pop only
                 _, da = du.slice_operand(at['discr'])
                 stack_len = False
                 for x in da:
@@ -529,6 +529,8 @@ def run(ctx, tier):
     results = []
     results += bounds_total(ctx)
     results += end_justified(ctx)
+    import c07
+    results += c07.scan_skips_empty(ctx, rule='C08.scan-skips-empty')
     results += start_compare(ctx)
     results += no_underflow(ctx)
     results += filter_total(ctx)
